@@ -7,7 +7,7 @@ from pv import env, exact, gens
 
 ID = "C12"
 LEVEL = "exploration"
-N = {"quick": 300, "thorough": 5000}
+N = {"quick": 1500, "thorough": 5000}
 RULE = ("cases = (contract over <=5 variables: satisfiable via witness / unsatisfiable built with simplify=False / without any "
         "constraint / bounded or unbounded in the objective direction, objective with 1-3 small-integer coefficients rendered as a "
         "string in one of several spellings, direction) and get_variable_bounds for an interface variable; expected result from an "
